@@ -97,15 +97,15 @@ def main():
         },
         "engines": [
             {"name": "simcheck-asan", "path": "/verif/.build/asan/simcheck", "serves_properties": sorted(p for p in PROPS if PROPS[p]["variant"] == "asan"),
-             "kind_free_text": "seeded discrete-event simulator + fault operators + reference models, library and simulator under ASan/UBSan"},
+             "kind_free_text": "seeded discrete-event simulator + fault operators + reference models, library and simulator under ASan/UBSan; library also compiled with trace-pc-guard (work bound) and trace-cmp (frames / calls derived from comparison operands); also the second engine of C19 (instances interleaved on one thread)"},
             {"name": "simcheck-plain", "path": "/verif/.build/plain/simcheck", "serves_properties": sorted(p for p in PROPS if PROPS[p]["variant"] == "plain"),
-             "kind_free_text": "same simulator, g++ -O2, replaced operator new/delete with seeded fill patterns + stack scribbler; also run under valgrind"},
+             "kind_free_text": "same simulator, g++ -O2, replaced operator new/delete with seeded fill patterns + stack scribbler; also run under valgrind; also the second-compiler phase (gcc-O2, 10 % of the budget) of every asan-variant check"},
             {"name": "simcheck-sched", "path": "/verif/.build/sched/simcheck", "serves_properties": sorted(p for p in PROPS if PROPS[p]["variant"] == "sched"),
              "kind_free_text": "same simulator on real threads, library compiled with -fsanitize-coverage=trace-pc-guard,trace-loads,trace-stores and scheduled by a seeded baton scheduler"},
         ],
         "checks": checks,
         "not_applicable": na,
-        "notes": "Deterministic simulation with fault injection; see DESIGN.md. Replay files are minimised plans under /verif/replays; known_findings.txt lists recorded and fixed defects.",
+        "notes": "Deterministic simulation with fault injection; see DESIGN.md. Replay files are minimised plans under /verif/replays; known_findings.txt lists recorded and fixed defects (13 fixed, none open). Sensitivity: 241 changes written by independent sub-agents under /verif/seeded (230 caught, 5 documented open misses, 3 benign, 3 outside the property), plus mutants/ (catalogue, fix reversals, benign refactorings); ./selftest sensitivity re-measures all of them.",
     }
     with open(os.path.join(VERIF, "MANIFEST.json"), "w") as f:
         json.dump(manifest, f, indent=1)
